@@ -263,13 +263,23 @@ func rGenSegment(r *rand.Rand, o rGenOpts) string {
 	case k < 16:
 		return rLits[r.Intn(3)] + "." + rParams[r.Intn(len(rParams))]
 	case k < 18 && o.escaped:
-		switch r.Intn(3) {
+		switch r.Intn(8) {
 		case 0:
 			return `a\:b`
 		case 1:
 			return `\:id`
-		default:
+		case 2:
 			return `\:`
+		case 3:
+			return `x\\:y` // backslash backslash colon
+		case 4:
+			return `\:\:`
+		case 5:
+			return `b\` // trailing backslash
+		case 6:
+			return `v\:` + rParams[r.Intn(len(rParams))] // escaped colon directly followed by a parameter
+		default:
+			return `\b`
 		}
 	default:
 		return rLits[r.Intn(4)]
